@@ -19,6 +19,13 @@ def sample(ty, rng):
         lo = ty.lo if ty.lo is not None else -(2 ** 70)
         hi = ty.hi if ty.hi is not None else 2 ** 70
         r = rng.random()
+        if ty.lo is not None and ty.hi is not None and r < 0.25:
+            # uniform over the declared range, and uniform in the number of bits (large declared ranges are otherwise never visited)
+            if rng.random() < 0.5:
+                return rng.randint(ty.lo, ty.hi)
+            span = ty.hi - ty.lo
+            return ty.lo + (rng.getrandbits(rng.randint(1, max(span.bit_length(), 1))) % (span + 1))
+        r = rng.random()
         if r < 0.35:
             v = rng.choice(INTERESTING) * rng.choice([1, 1, 1, -1])
             v += rng.choice([0, 0, 1, -1])
